@@ -392,8 +392,9 @@ def tab_in_literal(c):
 
 
 def literal_whitespace_changed(c):
-    sa = sorted(n.value for n in _walk(c["a"], ast.Constant) if isinstance(n.value, str))
-    sb = sorted(n.value for n in _walk(c["b"], ast.Constant) if isinstance(n.value, str))
+    as_text = lambda v: v if isinstance(v, str) else v.decode("latin-1")
+    sa = sorted(as_text(n.value) for n in _walk(c["a"], ast.Constant) if isinstance(n.value, (str, bytes)))
+    sb = sorted(as_text(n.value) for n in _walk(c["b"], ast.Constant) if isinstance(n.value, (str, bytes)))
     return sa != sb and [re.sub(r"\s+", "", x) for x in sa] == [re.sub(r"\s+", "", x) for x in sb]
 
 
@@ -661,6 +662,11 @@ def tuple_unpacking_dropped(c):
     return any(isinstance(s.targets[0], (ast.Tuple, ast.List)) for s in _removed_stmts(c["a"], c["b"], ast.Assign))
 
 
+def del_target_renamed(c):
+    dels = lambda t: [n.id for n in ast.walk(_p(t)) if isinstance(n, ast.Name) and isinstance(n.ctx, ast.Del)]
+    return dels(c["a"]).count("_") < dels(c["b"]).count("_")
+
+
 def nonlocal_target_touched(c):
     decl = {n for x in _walk(c["a"], ast.Nonlocal, ast.Global) for n in x.names}
     stores = lambda t: [n.id for n in ast.walk(_p(t)) if isinstance(n, ast.Name) and isinstance(n.ctx, ast.Store)]
@@ -746,6 +752,14 @@ def static_moved_async(c):
 def static_moved_but_assigned(c):
     names = {f.name for f in _moved_static(c)}
     return any(isinstance(n, ast.Attribute) and isinstance(n.ctx, ast.Store) and n.attr in names for n in ast.walk(_p(c["a"])))
+
+
+def non_self_first_parameter_removed(c):
+    def methods(text):
+        return {(k.name, f.name): [x.arg for x in f.args.posonlyargs + f.args.args]
+                for k in _walk(text, ast.ClassDef) for f in k.body if isinstance(f, (ast.FunctionDef, ast.AsyncFunctionDef))}
+    ma, mb = methods(c["a"]), methods(c["b"])
+    return any(k in mb and args and args[0] not in ("self", "cls") and mb[k] == args[1:] for k, args in ma.items())
 
 
 def self_attr_call_to_cls(c):
